@@ -19,9 +19,9 @@
     ([C18_invariant_one_operation_partial]); what is missing for [C18_full] is the interplay of several
     operations (shared waitable set, handle reuse), which is covered by the differential leg (1-3
     operations, model == real code, rules evaluated on the real logs and [inv_ok] on the model's final state)
-    and, in the thorough tier, by exhaustive exploration of all 64 two-operation universes with the extracted
-    model (checks/c18.py, coverage key `two_operation_universes_explored`), not by a Coq proof: the reachable sets there have
-    ~5*10^4 states per configuration, beyond what the VM explores within the build budget. *)
+    and, in the thorough tier, by exhaustive exploration of the 16 two-operation universes with two v2 tasks (5.7*10^5
+    states) with the extracted model (checks/c18.py, coverage key `two_operation_universes_explored`), not by a Coq proof: the reachable sets there have
+    3*10^4 - 6*10^4 states per configuration, beyond what the VM explores within the build budget. *)
 From Coq Require Import NArith ZArith List Bool.
 From WB Require Import Async.Host Async.WaitOp Async.WaitOpProofs Async.WaitOpInv.
 Import ListNotations.
